@@ -15,9 +15,10 @@ theorem C10_removal (coef : Rat) (app : TreatApp) (c : Cell) (h0 : 0 ≤ coef) (
       simpleTreatSpec coef (app == .allInfected) c c' = true ∧ c'.totalsOK = true := by
   exact mech_C10_removal coef app c h0 h1 hn ht hm
 
-/-- Pesticide: the share rounded down of each class moves into the resistant class. -/
+/-- Pesticide: the share rounded down of each class moves into the resistant class. (Whether or
+    not infected = sum of the mortality cohorts: `mortOK` is not needed.) -/
 theorem C10_pesticide (coef : Rat) (app : TreatApp) (c : Cell) (h0 : 0 ≤ coef) (h1 : coef ≤ 1)
-    (hn : c.nonNeg = true) (ht : c.totalsOK = true) (hm : c.mortOK = true) :
+    (hn : c.nonNeg = true) (ht : c.totalsOK = true) :
     ∃ c', c.pesticideTreat coef app = .ok c' ∧
       pesticideTreatSpec coef (app == .allInfected) c c' = true ∧ c'.totalsOK = true := by
   exact mech_C10_pesticide coef app c h0 h1 hn ht
